@@ -7,9 +7,10 @@ pipeline theorems below are over `verifyAux` (InToto/Model/Verify.lean), one lev
 import InToto.Model.Expiry
 import InToto.Proofs.PipeSigs
 import InToto.Generated.Facts
+import InToto.Proofs.Expiry
 
 namespace InToto.C06
-open InToto InToto.Expiry
+open InToto InToto.Expiry InToto.ExpiryProofs
 
 /-- C06: acceptance implies a well-formed stamp that is not in the past at verification time. -/
 theorem accepted_is_future (now : Int) (s : Str) (h : expiryOK now s = true) :
@@ -72,5 +73,33 @@ theorem grammar_examples :
 
 /-- fact regenerated from the source on every run: the one date layout that is parsed -/
 theorem facts_date_layout : Generated.constISO8601DateSchema = lit% "2006-01-02T15:04:05Z" := by decide
+
+/-- C06 ("well-formed UTC timestamp", both directions): the parser accepts EXACTLY the strings of
+    the grammar `YYYY-MM-DDTh[h]:mm:ss[(.|,)d+]Z` with a real calendar date and time of day -/
+theorem parse_iff_grammar (s : Str) (t : Stamp) : parseExpiry s = some t ↔ WellFormed s t :=
+  parse_iff_wellformed s t
+
+/-- a parsed stamp is a real calendar date and time of day -/
+theorem parsed_is_calendar_date (s : Str) (t : Stamp) (h : parseExpiry s = some t) :
+    1 ≤ t.month ∧ t.month ≤ 12 ∧ 1 ≤ t.day ∧ t.day ≤ daysIn t.month t.year ∧ t.hour < 24 ∧ t.min < 60 ∧ t.sec < 60 :=
+  parsed_in_range s t h
+
+/-- C06 (the time line the comparison uses is the calendar's): consecutive calendar days get
+    consecutive day numbers — month lengths and leap years included — starting from the epoch -/
+theorem day_numbers_are_consecutive (y m d : Nat) (hm : 1 ≤ m ∧ m ≤ 12) (hd : 1 ≤ d ∧ d ≤ daysIn m y) :
+    daysFromCivil (nextDay y m d).1 (nextDay y m d).2.1 (nextDay y m d).2.2 = daysFromCivil y m d + 1 ∧
+    daysFromCivil 1970 1 1 = 0 :=
+  ⟨daysFromCivil_nextDay y m d hm hd, daysFromCivil_epoch⟩
+
+/-- C06 ("not in the past" means what it says): of two in-range stamps, the one that is earlier on
+    the calendar and clock has the strictly smaller instant -/
+theorem earlier_stamp_is_smaller_instant (t t' : Stamp)
+    (hr : 1 ≤ t.month ∧ t.month ≤ 12 ∧ 1 ≤ t.day ∧ t.day ≤ daysIn t.month t.year ∧ t.hour < 24 ∧ t.min < 60 ∧ t.sec < 60 ∧ t.nanos < 1000000000)
+    (hr' : 1 ≤ t'.month ∧ t'.month ≤ 12 ∧ 1 ≤ t'.day ∧ t'.day ≤ daysIn t'.month t'.year ∧ t'.hour < 24 ∧ t'.min < 60 ∧ t'.sec < 60 ∧ t'.nanos < 1000000000)
+    (h : dateLt t.year t.month t.day t'.year t'.month t'.day ∨
+         (t.year = t'.year ∧ t.month = t'.month ∧ t.day = t'.day ∧
+           (t.hour * 3600 + t.min * 60 + t.sec) * 1000000000 + t.nanos < (t'.hour * 3600 + t'.min * 60 + t'.sec) * 1000000000 + t'.nanos)) :
+    t.unixNanos < t'.unixNanos :=
+  unixNanos_strictMono t t' hr hr' h
 
 end InToto.C06
